@@ -6,6 +6,7 @@ import SplVerif.Driver.OpsNet
 import SplVerif.Driver.OpsParse
 import SplVerif.Driver.OpsFeat
 import SplVerif.Driver.OpsSpec
+import SplVerif.Driver.OpsFmtSpec
 open Spl Spl.Wire Spl.Ops
 
 /-- One input line = `<op> <args...>` optionally followed by a TAB and the implementation's
@@ -18,7 +19,7 @@ def answer (line : String) : String :=
     | _ => ("", "")
   match caseLine.splitOn " " with
   | op :: args =>
-    match (lexOps op args impl <|> docOps op args impl <|> rpcOps op args impl <|> codecOps op args impl <|> netOps op args impl <|> parseOps op args impl <|> featOps op args impl <|> specOps op args impl) with
+    match (lexOps op args impl <|> docOps op args impl <|> rpcOps op args impl <|> codecOps op args impl <|> netOps op args impl <|> parseOps op args impl <|> featOps op args impl <|> specOps op args impl <|> fmtSpecOps op args impl) with
     | some r => r
     | none => "bad-op"
   | [] => "bad-op"
